@@ -88,7 +88,7 @@ def r19_2(ctx: Ctx) -> None:
             ctx.check(not zero and not fall, "R19.2", f, hn.ast, f"{f.qname}: except {hname} ends non-zero",
                       f"the handler `except {hname}` of {name} can reach a zero/None return (exit status 0 after a failure)",
                       construct=f"except {hname}")
-    ctx.floor("R19.2", total, 8, "exception handlers in the command handlers")
+    ctx.floor("R19.2", total, 5, "exception handlers in the command handlers")
     # success path returns 0 and (for t) is control dependent on the verdict
     t = _cli(ctx, "run_test")
     tz = [c for c in q.calls(t) if attr_tail(c) == "testzip"]
@@ -238,6 +238,13 @@ def r19_3(ctx: Ctx) -> None:
         for v in q.sources_of(conv, key, depth=3):
             if isinstance(v, ast.Call) and attr_tail(v) == "group" and v.args and isinstance(v.args[0], ast.Constant):
                 grp = v.args[0].value
+        if grp is None and isinstance(key, ast.Name):
+            # num, unit = m.groups()
+            for n in walk(conv.node):
+                if isinstance(n, ast.Assign) and isinstance(n.targets[0], ast.Tuple) and isinstance(n.value, ast.Call) and attr_tail(n.value) == "groups":
+                    for i, t in enumerate(n.targets[0].elts):
+                        if isinstance(t, ast.Name) and t.id == key.id:
+                            grp = i + 1
         ctx.need(grp is not None, "the dunits key does not come from a match group")
         L = _group_language(pat, flags, grp)
         ctx.need(L is not None, f"group {grp} of {pat!r} is not a finite simple language")
